@@ -1,10 +1,17 @@
 import Qryn.Proofs.LogQLPlan
+import Qryn.Proofs.LogQLPlanX
 /-! # C07 — the SQL generated for a LogQL log query selects exactly the matching lines
 
 Model: `LogQL.planLog` (tied byte-for-byte to the real planner's SQL text by the `text` correspondence
 stream), `Sql.evalSel` (semantics of the structured SQL subset — a documented model of ClickHouse),
 `LogQL.evalLog` (the direct reading of the query, no SQL). Fragment: stream selector, line filters
-`|= != |~ !~`, label filters on stream labels (before any parser), window, limit, direction. -/
+`|= != |~ !~`, label filters on stream labels (before any parser), window, limit, direction.
+
+Extension (`…_ext`, `script_correct`): the SQL-side pipeline stages `| json l="path"`, `| regexp "(?P<l>…)"`, `| drop`, and
+line / label filters (string, numeric, and/or) placed after them, up to the stage where the script is handed to the
+in-process engine (`| json`, `| logfmt`, `| line_format`). Model `LogQL.planLogX` / `planScript` (tied by the `textx`
+stream through `logql_transpiler_v2.Plan`), semantics `Sql.evalSelX` (= `Sql.Sem` with the SELECT's aliases visible in
+its WHERE and in its other columns, ClickHouse's default), specification `LogQL.evalLogX` / `evalScript`. -/
 namespace Qryn.C07
 open Qryn Qryn.Sql Qryn.LogQL
 
@@ -48,5 +55,69 @@ theorem limited_sound (o : Oracles) (c : Ctx) (d : LokiDb) (q : LogQuery) (s : S
 theorem unlimited_complete (o : Oracles) (c : Ctx) (d : LokiDb) (q : LogQuery) (h : c.limit = 0) :
     (limited o c d q).Perm (d.samples.filter (entryMatches o c d q)) :=
   LogQL.unlimited_complete o c d q h
+
+/-! ## the SQL-side pipeline stages -/
+
+/-- **plan_correct_ext.** For every log query whose pipeline is made of line filters, label filters (string and
+    numeric comparisons, and/or), `| json` with path parameters, `| regexp` and `| drop`, in any order and number, every
+    context and every database: the statement planned for ClickHouse returns exactly the entries of the direct
+    reading — the entries inside [start, end) of the logs signal whose stream satisfies the selector and the label
+    filters placed before the first parser/drop (on the stored labels), whose line passes every line filter and whose
+    *current* labels — the stream's, overwritten by the extracted ones, without the dropped ones — pass every later
+    label filter, each stage seeing what the stages before it produced; each entry with its own stream's labels
+    rewritten by exactly the json/regexp/drop stages in order and the fingerprint of that label set; ordered by
+    timestamp, cut at the limit when the whole script runs in ClickHouse (`fin`), then ordered by series.
+    JSON path extraction, RE2 capture groups and CityHash64 are arbitrary functions (`o`) shared by both sides. -/
+theorem plan_correct_ext (o : Oracles) (c : Ctx) (hn : c.namesOk) (d : LokiDb) (q : LogQueryX) (fin : Bool)
+    (hm : q.matchers.length ≤ 63) :
+    evalSelX o (d.toDb c) (planLogX c fin q) = evalLogX o c fin d q :=
+  planLogX_correct o c hn d q fin hm
+
+/-- **script_correct.** For a whole script: what `logql_transpiler_v2.Plan` sends to ClickHouse — the stages before the
+    first one only the in-process engine has, with the LIMIT only if there is no such stage — returns the direct reading
+    of exactly those stages (the rest is C09's). -/
+theorem script_correct (o : Oracles) (c : Ctx) (hn : c.namesOk) (d : LokiDb) (ms : List Matcher) (ss : List ScriptStage)
+    (hm : ms.length ≤ 63) :
+    evalSelX o (d.toDb c) (planScript c ms ss) = evalScript o c d ms ss :=
+  planLogX_correct o c hn d ⟨ms, sqlPrefix ss⟩ (finalizes ss) hm
+
+/-- **handover_point.** ClickHouse gets a prefix of the pipeline: everything before the first `| json` without
+    parameters / `| logfmt` / `| line_format`; it applies the limit iff nothing is left for the in-process engine. -/
+theorem handover_point (ss : List ScriptStage) :
+    ∃ rest, ss = (sqlPrefix ss).map .sql ++ rest ∧ (finalizes ss = true ↔ rest = []) ∧
+      (∀ s, rest.head? = some s → s.breaks = true) :=
+  sqlPrefix_spec ss
+
+/-- **own_stream_labels.** Every entry the stages return is an entry that entered them — same line, same timestamp —
+    and its labels are its own stream's labels rewritten by the json / regexp / drop stages of the pipeline, in order
+    (extracted labels replace stored ones of the same name: `mapUpdate`). -/
+theorem own_stream_labels (o : Oracles) (ss : List StageX) (E : List EntryX) (e' : EntryX) (h : e' ∈ stagesX o ss E) :
+    ∃ e ∈ E, e'.line = e.line ∧ e'.ts = e.ts ∧ e'.labels = (changersOf ss).foldl (applyChanger o e.line) e.labels :=
+  stagesX_origin o ss E e' h
+
+/-- **ext_conservative.** Without parser / drop stages the extended specification is the one `plan_correct` is about. -/
+theorem ext_conservative (o : Oracles) (c : Ctx) (d : LokiDb) (q : LogQuery) :
+    evalLogX o c true d ⟨q.matchers, q.stages.map .fl⟩ = evalLog o c d q :=
+  evalLogX_plain o c d q
+
+/-- extracted labels take precedence over stored ones, a later extraction over an earlier one -/
+theorem extracted_overrides (a b : Labels) (k v : Bytes) (h : (k, v) ∈ b) (hu : ∀ v', (k, v') ∈ b → v' = v) :
+    ∀ v', (k, v') ∈ mapUpdate a b → v' = v := by
+  intro v' hm
+  simp only [mapUpdate, List.mem_append, List.mem_filter] at hm
+  rcases hm with ⟨_, hn⟩ | hm
+  · have : b.any (fun q => q.1 == k) = true := List.any_eq_true.mpr ⟨(k, v), h, by simp⟩
+    simp [this] at hn
+  · exact hu v' hm
+
+/-! non-vacuity: a context with distinct table names; a query with all stage kinds; the hand-over -/
+example : ∃ c : Ctx, c.namesOk := ⟨⟨0, 10, 5, false, 1, false, "gin", "smp", "ts", "ts_dist"⟩, by simp [Ctx.namesOk]⟩
+example : (splitPre [.fl (.line ⟨.contains, [97], none⟩), .ch (.drop [([97], [])]), .fl (.label (.str "a" .eq [98]))]).2.length = 2 := by decide
+example : groupRuns [.ch (.json [([120], [.key [97], .idx 1])]), .ch (.drop [([97], [])]), .fl (.label (.str "x" .eq [98])),
+    .ch (.regexp [[120], []] [40, 97, 41, 40, 98, 41])] =
+    [.ch [.json [([120], [.key [97], .idx 1])], .drop [([97], [])]], .fl [.label (.str "x" .eq [98])],
+     .ch [.regexp [[120], []] [40, 97, 41, 40, 98, 41]]] := by decide
+example : sqlPrefix [.sql (.ch (.drop [([97], [])])), .inproc "logfmt", .sql (.ch (.drop [([98], [])]))] = [.ch (.drop [([97], [])])] ∧
+    finalizes [.sql (.ch (.drop [([97], [])])), .inproc "logfmt"] = false := by decide
 
 end Qryn.C07
